@@ -35,6 +35,8 @@ def fitsU (orig : Ty) : Ty → Ty → Bool
     (bestUnionTag orig T).isSome ||
       (match T.inner? with | some oi => fitsHead i oi (fitsU i i oi) | none => false)
   | .union ms, T => fitsMembers ms T
+  | .enum _, T => (bestUnionTag orig T).isSome
+  | .error _, T => (bestUnionTag orig T).isSome
 termination_by structural x => x
 /-- every input field is a field of the target and fits there -/
 def fitsFields : Fields → Fields → Bool
@@ -50,9 +52,13 @@ def fitsMembers : Tys → Ty → Bool
 termination_by structural x => x
 end
 
-/-- the input type `a` can be shaped into `T` without reshaping a map, casting a primitive or
-    reshaping a value into a union member -/
-def fits (a T : Ty) : Bool := fitsHead a T (fitsU a a T)
+/-- (`fitsN`: at a nested position; `fits`: for a whole input value.)
+    The input type `a` can be shaped into `T` without reshaping a map, casting a primitive or
+    reshaping a value into a union member; a top-level error value is never shaped
+    (`ConstShaper.Eval` returns it as it is), so an error type fits only itself -/
+def fitsN (a T : Ty) : Bool := fitsHead a T (fitsU a a T)
+
+def fits (a T : Ty) : Bool := (!a.isError || a == T) && fitsN a T
 
 mutual
 /-- union-free, map-free types with distinct field names (names allowed) -/
@@ -64,6 +70,8 @@ def clean : Ty → Bool
   | .map _ _ => false
   | .union _ => false
   | .named _ t => clean t
+  | .enum _ => true
+  | .error _ => false
 def cleanF : Fields → Bool
   | .nil => true
   | .cons _ t r => clean t && cleanF r
